@@ -7,14 +7,18 @@
 (*   e.tevs - the same for the string/None/int variables, values written as in Players!TVals            *)
 (*   e.cur  - the number of the player who is up (game.player), e.turn - the player the game modes hold  *)
 (*            (Mode.player; judged during a ball only)                                                   *)
+(*   e.vs   - the variable NAMES of every player (sorted keys of player.vars), e.xevs - the names of the player_<var>  *)
+(*            events seen for variables that hold objects / lists / dicts or that nobody ever writes              *)
+(*   read lines: e.rv - the value read (as in Players!TVals; "?" an object, "-" not seen: a condition), e.rt - its   *)
+(*            truth value, e.has - is_player_var(var) of player q after the read                                 *)
 (* The model follows the logged actions; the monitors (INVARIANTs of the trace cfg, evaluated on the    *)
 (* last consumed line o and the model state) carry the statement of C11.                                *)
 EXTENDS Players, TraceIO
-VARIABLES tid, l, o, pcur, dead
-tvars == <<vars, tid, l, o, pcur, dead>>
+VARIABLES tid, l, o, po, pcur, dead
+tvars == <<vars, tid, l, o, po, pcur, dead>>
 TL == TraceLines[tid].ev
 TConfigs == {}
-TInit == /\ tid \in 1..Len(TraceLines) /\ l = 1 /\ o = [op |-> "init"] /\ pcur = 0 /\ dead = FALSE
+TInit == /\ tid \in 1..Len(TraceLines) /\ l = 1 /\ o = [op |-> "init"] /\ po = [op |-> "init"] /\ pcur = 0 /\ dead = FALSE
          /\ cfg = TraceLines[tid].cfg /\ ph = "idle" /\ np = 0 /\ cur = 0 /\ P = [p \in Players |-> NoP] /\ bound = NoBound
          /\ vol = Vol0 /\ ending = FALSE /\ evs = {} /\ tevs = {} /\ act = [op |-> "init"] /\ nops = 0 /\ nadv = 0 /\ ngames = 0 /\ bops = 0
 \* the achievement's own transition table is not part of the statement: the new state is taken from the log
@@ -41,6 +45,7 @@ TStep(e) ==
     \/ e.op = "adv" /\ Adv
     \/ e.op = "ballend" /\ BallEnd(e.h)
     \/ e.op = "endgame" /\ EndGame
+    \/ e.op = "read" /\ Read(e.q, e.var, e.path)
 \* Code-as-is deviation "LateModeStart" (contradicts the statement; only allowed when named in Deviations): a game mode
 \* started while the ended ball waited for another mode's stop is not stopped when the ball finally ends - it is still
 \* running, attached to the player who played that ball, when the turn is over (e.turn = 0) and the next player is up
@@ -52,7 +57,7 @@ TNext == /\ l <= Len(TL)
          /\ IF dead THEN dead' = TRUE /\ UNCHANGED vars
             ELSE IF DevLate(TL[l]) THEN "LateModeStart" \in Deviations /\ dead' = TRUE /\ UNCHANGED vars
             ELSE dead' = FALSE /\ TStep(TL[l])
-         /\ o' = TL[l] /\ pcur' = cur /\ l' = l + 1 /\ UNCHANGED tid
+         /\ o' = TL[l] /\ po' = o /\ pcur' = cur /\ l' = l + 1 /\ UNCHANGED tid
 TSpec == TInit /\ [][TNext]_tvars
 Reporter == TraceReport(tid, l, Len(TL))
 \* ---- monitors ---------------------------------------------------------------------------------------------------
@@ -77,6 +82,7 @@ RealT(x) == Truthy(x[4]) \/ x[2] # x[3]
 RealTEvs == SelectSeq(o.tevs, RealT)
 ModelTEvs == {x \in tevs : RealT(x)}
 VarEventOK == Seen => /\ SeqToSet(RealEvs) = evs /\ Len(RealEvs) = Cardinality(evs)
+                      /\ Len(o.xevs) = 0       \* objects / lists / dicts and variables nobody writes: never announced
                       /\ SeqToSet(RealTEvs) = ModelTEvs /\ Len(RealTEvs) = Cardinality(ModelTEvs)
 \* whose turn it is: the player who is up, and (during a ball) the player the game modes work for; an ended ball that
 \* waits for a mode to stop is still the turn of the player who played it
@@ -85,4 +91,19 @@ TurnOK == Seen => o.cur = cur /\ (ph \in {"ball", "ending"} => o.turn = cur)
 LiveOK == Seen => SameLive(o.live, Live)
 \* the acting player's own record follows the model
 OwnOK == Seen => NPl = np /\ (pcur \in 1..np => o.pl[pcur] = P[pcur]) /\ (cur \in 1..np => o.pl[cur] = P[cur])
+\* the variable SETS: a read leaves the variable names of every player as they were; whatever else happened while pcur
+\* was up, nobody else got or lost a variable (except the one that a write to that player's variable names)
+MinN(a, b) == IF a < b THEN a ELSE b
+VarSetOK == Seen /\ po.op # "init" /\ o.op # "newgame" =>
+               \A q \in 1..MinN(Len(o.vs), Len(po.vs)) :
+                  (o.op = "read" \/ q # pcur) =>
+                     SeqToSet(o.vs[q]) = SeqToSet(po.vs[q]) \cup (IF o.op = "settv" /\ o.q = q THEN {o.var} ELSE {})
+\* a read returns what player q owns (0 for a variable that does not exist, nothing for a player who has not joined), and
+\* is_player_var(var) still says what the model says: the devices still find "no state yet" on their first load for q
+ReadOK == Seen /\ o.op = "read" =>
+             LET rv == RVal(o.q, o.var) IN
+             /\ Len(o.vs) = np
+             /\ (rv # "?" => /\ (o.path \in ValuePaths => o.rv = rv) /\ o.rt = RTruth(rv))
+             /\ (o.q > np => ~o.has)
+             /\ (o.q <= np /\ o.var \in HasKnown => o.has = Has(P[o.q], o.var))
 =============================================================================
